@@ -68,7 +68,7 @@ From Thunder Require Import Reactive.ProofsArmed Reactive.ProofsReach.
 
 (** Armed invariant + Edge invariant at quiescence.
 
-    FULL STATEMENT (DESIGN.md, not yet proved — see [no_lost_invalidation] below if present):
+    FULL STATEMENT (proved below as [no_lost_invalidation]):
       forall k progs s r, reachable (init k progs) s -> quiescent s -> r < length (s_rrs s) ->
         r_cancel (getr s r) = false -> r_failed (getr s r) = false ->
         exists c, r_comp (getr s r) = Some c /\
@@ -100,3 +100,30 @@ Theorem stop_implies_cancelled :
   r_stop (getr s r) = true -> r_cancel (getr s r) = true.
 Proof. exact stop_implies_cancel. Qed.
 Print Assumptions stop_implies_cancelled.
+
+From Thunder Require Import Reactive.ProofsStale.
+
+(** NO LOST INVALIDATION (full statement).  Slots carry versions; a compute step that reads a slot records
+    (slot, version) in its computation's value, and the value of a cached child is appended to its parent's
+    when the parent adopts it.  Under every schedule — every interleaving of Strobe / Invalidate / Stop /
+    PurgeCache / timers with the critical sections of run, AddDependency, Cache, publish, handler registration
+    and release — at quiescence a rerunner that was neither stopped (cancelled) nor has failed holds a
+    published computation all of whose recorded versions are the current ones: whatever superseded a version
+    (in whichever window it landed) caused a re-run. *)
+Theorem no_lost_invalidation :
+  forall k progs s r, reachable (init k progs) s -> quiescent s -> r < length (s_rrs s) ->
+  r_cancel (getr s r) = false -> r_failed (getr s r) = false ->
+  exists c, r_comp (getr s r) = Some c /\
+    forall sl v, In (sl, v) (n_val (getN s c)) -> v = slot_ver s sl.
+Proof. exact no_lost_invalidation_lemma. Qed.
+Print Assumptions no_lost_invalidation.
+
+(** Stale invariant (DESIGN A.3) in every reachable state: a computation that recorded a version of a slot
+    either recorded the current one and still hangs below the slot's current resource, or an invalidation is
+    on its way to it: some node it depends on is invalid, about to be marked, or about to be strobed. *)
+Theorem stale_invariant :
+  forall k progs s c sl v, reachable (init k progs) s -> In (sl, v) (n_val (getN s c)) ->
+  doomed (s_nodes s) (all_frames s) c \/
+  (v = slot_ver s sl /\ reachplus (s_nodes s) (slot_res s sl) c).
+Proof. intros k progs s c sl v R Hin. exact (proj1 (reachable_stale k progs s R) c sl v Hin). Qed.
+Print Assumptions stale_invariant.
